@@ -155,7 +155,7 @@ func knownErrorClass(sh Shape, msg string) string {
 		return "percent-in-name-unescaped-twice"
 	case sh.AbsRootRef && strings.Contains(msg, `can't find value for "c07/root.json#`):
 		return "absolute-path-ref-to-root-taken-for-pointer"
-	case sh.SameNameTargets && strings.Contains(msg, "name conflict"):
+	case sh.SameNameTargets && (strings.Contains(msg, "name conflict") || strings.Contains(msg, "sum types with same names")):
 		// Go type names of referenced components come from the last pointer token only
 		return "same-named-components-in-two-documents-collide"
 	case wrapConflictRe.MatchString(msg):
@@ -167,6 +167,11 @@ func knownErrorClass(sh Shape, msg string) string {
 }
 
 var requiredRecursionRe = regexp.MustCompile(`infinite recursion: \S+ is required`)
+
+var (
+	hdrRe    = regexp.MustCompile(`hdr:[^}]*`)
+	opPathRe = regexp.MustCompile(`^([A-Z]+) \S+ `)
+)
 
 var defaultRe = regexp.MustCompile(` ?default\{[^}]*\}`)
 
@@ -220,6 +225,7 @@ func checkTransparency(c Case) Result {
 		"max_chain": sh.MaxChain, "recursive_sites": sh.Cyclic, "inlined": len(c.Inline), "files": len(c.Files), "tags": c.Tags,
 	}
 
+	shInl := analyse(inl)
 	ea, eb := emitAll(docs), emitAll(inl)
 	pa, pb := runParse(ea, 0), runParse(eb, 0)
 	var fs []*vk.Finding
@@ -310,24 +316,54 @@ func checkTransparency(c Case) Result {
 			sa, sb := genSignature(ga.g), genSignature(gb.g)
 			if a, b := strings.Join(sa, "\n"), strings.Join(sb, "\n"); a != b && len(fs) == 0 {
 				cl := "gen-operations-differ"
-				if strip := func(s string) string {
-					return strings.NewReplacer("(Response)", "", "()", "").Replace(strings.NewReplacer("StatusCode,", "", ",StatusCode", "", "(StatusCode)", "()").Replace(s))
-				}; sh.ResponseCodeAndPattern && strip(a) == strip(b) {
-					// the IR of a response component is built once, for the first
-					// referrer: with or without the StatusCode field
-					cl = "response-ref-cached-status-code-wrapper"
-				} else if c.AllowKnown && defaultRe.ReplaceAllString(a, "") == defaultRe.ReplaceAllString(b, "") {
+				// Known causes change the signature in a known way; undo them one
+				// by one (several can be present in one case) and name the finding
+				// after the one that makes the rest equal.
+				na, nb := a, b
+				steps := []struct {
+					applies bool
+					norm    func(string) string
+					cl      string
+				}{
 					// auto "convenient errors": equal default responses are recognised
 					// when given by one $ref, not always when given as equal copies
-					cl = "convenient-errors-not-recognised-for-inlined-defaults"
-				} else if (sh.LiteralResponsesShareSchema || analyse(inl).LiteralResponsesShareSchema) && parenRe.ReplaceAllString(a, "") == parenRe.ReplaceAllString(b, "") {
+					{c.AllowKnown, func(s string) string { return defaultRe.ReplaceAllString(s, "") },
+						"convenient-errors-not-recognised-for-inlined-defaults"},
+					// the IR of a response component is built once, for the first
+					// referrer: with or without the StatusCode field
+					{sh.ResponseCodeAndPattern, func(s string) string {
+						s = strings.NewReplacer("StatusCode,", "", ",StatusCode", "", "(StatusCode)", "()").Replace(s)
+						return strings.NewReplacer("(Response)", "", "()", "").Replace(s)
+					}, "response-ref-cached-status-code-wrapper"},
 					// the wrapper is looked up by the content schema's reference only:
 					// a second response with other headers gets the first one's wrapper
-					cl = "response-wrapper-named-after-content-type"
-				} else if sh.PathItemShar {
-					cl = "pathitem-ref-cached-path"
-				} else if sh.HeaderShared {
-					cl = "header-ref-cached-name"
+					{sh.LiteralResponsesShareSchema || shInl.LiteralResponsesShareSchema,
+						func(s string) string { return parenRe.ReplaceAllString(s, "") },
+						"response-wrapper-named-after-content-type"},
+					// which referrer's name a shared header keeps depends on Go map
+					// order, so the parse inside NewGenerator may differ from the one
+					// compared above
+					{sh.HeaderShared || shInl.HeaderShared,
+						func(s string) string { return hdrRe.ReplaceAllString(parenRe.ReplaceAllString(s, ""), "hdr:") },
+						"header-ref-cached-name"},
+					{sh.PathItemShar || shInl.PathItemShar, func(s string) string {
+						lines := strings.Split(s, "\n")
+						for i, l := range lines {
+							lines[i] = opPathRe.ReplaceAllString(l, "$1 PATH ")
+						}
+						sort.Strings(lines)
+						return strings.Join(lines, "\n")
+					}, "pathitem-ref-cached-path"},
+				}
+				for _, st := range steps {
+					if !st.applies {
+						continue
+					}
+					na, nb = st.norm(na), st.norm(nb)
+					if na == nb {
+						cl = st.cl
+						break
+					}
 				}
 				add(cl, "generated operations differ:\nwith references:\n%s\ninlined:\n%s", a, b)
 			}
